@@ -43,7 +43,13 @@ def regenerate_guards(pid):
         old = target.read_text() if target.exists() else ""
         if text != old: target.write_text(text)
         info["changed_since_last_run"] = text != old
-        return "ok", "regenerated" if text != old else "unchanged", info
+        st = LEAN_DIR / "LK" / "Generated" / "ArrowScalarC17.lean"
+        try: stext = py2lean_arrow.translate_scalar(os.path.dirname(lenskit.__file__))
+        except py2lean_arrow.Unsupported as e: return "untranslatable", f"add_scalar_attribute: {e}", info
+        sold = st.read_text() if st.exists() else ""
+        if stext != sold: st.write_text(stext)
+        info["sites"].append("data/builder.py:DatasetBuilder.add_scalar_attribute (value placement) → scalarPlaceT")
+        return "ok", "regenerated" if (text != old or stext != sold) else "unchanged", info
     if pid == "C04":
         import py2lean_scatter
         info = {"module": "LK.Gen.ScatterC04", "obligations": "LK/Proofs/ScatterC04.lean", "sites": [f"{rel}:{cls}.__call__ → {nm}" for rel, cls, nm in py2lean_scatter.SCORERS]}
